@@ -121,11 +121,17 @@ func (w *World) step(e Event, check bool) []mc.Violation {
 			w.deliver(pkt)
 		}
 	case "suspect":
+		w.heard[e.A][e.B] = false
 		w.nodes[e.A].fd.level[w.nodes[e.B].ID] = 1000
 		w.nodes[e.A].State.UpdateLiveness(float64(gossip.VSuspicionThreshold))
 		w.suspUsed++
 	case "liveness":
 		w.nodes[e.A].State.UpdateLiveness(float64(gossip.VSuspicionThreshold))
+		// state bookkeeping happens here (replayed prefixes run no oracles)
+		w.heardAtLiveness = append(w.heardAtLiveness[:0], w.heard[e.A]...)
+		for x := range w.heard[e.A] {
+			w.heard[e.A][x] = false
+		}
 	case "sweep":
 		md, ok := w.meta(e.A, w.nodes[e.B].ID)
 		if ok && !md.Expiry.IsZero() {
@@ -349,7 +355,11 @@ func (w *World) Enabled() []Event {
 			continue
 		}
 		for _, md := range w.nodes[i].State.Nodes() {
-			if md.Unreachable && !md.Left && w.nodes[i].fd.level[md.ID] == 0 {
+			heard := false
+			if x, ok := w.byID[md.ID]; ok {
+				heard = w.heard[i][x]
+			}
+			if md.Unreachable && (w.nodes[i].fd.level[md.ID] == 0 || heard) {
 				evs = append(evs, Event{Kind: "liveness", A: i})
 				break
 			}
@@ -420,6 +430,9 @@ func (w *World) Canon() string {
 		for x, ex := range w.everExpired[i] {
 			if ex {
 				fmt.Fprintf(&sb, "|E%d", x)
+			}
+			if w.heard[i][x] {
+				fmt.Fprintf(&sb, "|H%d", x)
 			}
 		}
 		sb.WriteString("\n")
